@@ -14,7 +14,8 @@ CHECKS = {
         text="TLC checks exhaustively (small constants) that the transcription of MessageBufReader refines the "
              "abstract stream contract for every stream/chunking/call order; the contract is then bound to the code "
              "both ways: TLC-simulated behaviours are replayed on the real reader (1 and 128 bytes per cell) and "
-             "seeded native-length traces of the real reader are validated by TLC; every base-128 digit pattern of "
+             "seeded native-length traces of the real reader are validated by TLC; every stream is also written to a file and "
+             "read back through the real FileMessageReader (nothing dropped at the end of the file); every base-128 digit pattern of "
              "length 1..10 is executed on the real varint writer/reader/size functions.",
         note="trusts TLC, the cell abstraction (uniform bytes per cell) and that consumers use the reader through "
              "append/next/is_empty only; model constants are small, native sizes are covered by sampling (TV leg)",
